@@ -102,7 +102,9 @@ def strategy():
                 'order': draw(st.lists(st.integers(0, 1000), min_size=4, max_size=4)),
                 'default_kwargs': draw(st.sampled_from([False, False, True])),
                 # the documented extra argument of the counting jobs: also count reads whose mp tag says 'multi'
-                'ignore_mp': draw(st.sampled_from([None, None, None, True, False]))}
+                'ignore_mp': draw(st.sampled_from([None, None, None, True, False])),
+                # a list of BAM files counted in one call (bamCopyNumber's usage): the same pairs under other cell names
+                'second_cells': draw(st.sampled_from([None, None, None, 'other']))}
     return case()
 
 
@@ -143,6 +145,14 @@ def eval_obtain(case):
     # records that are neither read 1 nor read 2 are present but are no read-1 records: never counted here
     write_bam(path, contigs, case['records'] + case.get('unpaired', []))
     exp = flat(recount(case))
+    inputs = path
+    path2 = os.path.join(scratch_dir(), 'c12_%d_second.bam' % os.getpid())
+    if case.get('second_cells'):
+        recs2 = [dict(r, tags=dict(r['tags'], SM=case['second_cells'] + r['tags']['SM'])) for r in case['records']]
+        write_bam(path2, contigs, recs2)
+        for k_, v_ in flat(recount(dict(case, records=recs2))).items():
+            exp[k_] = exp.get(k_, 0) + v_
+        inputs = [path, path2]
     results = {}
     boundary = False
     multi_jobs = False
@@ -155,7 +165,7 @@ def eval_obtain(case):
             kw = {} if case['default_kwargs'] else {'kwargs': ({} if case.get('ignore_mp') is None else {'ignore_mp': case['ignore_mp']})}
             try:
                 with contextlib.redirect_stdout(io.StringIO()):
-                    cmds = list(bc.generate_commands(path, bin_size=case['bin'], bins_per_job=bpj, min_mq=case['min_mq'],
+                    cmds = list(bc.generate_commands(inputs, bin_size=case['bin'], bins_per_job=bpj, min_mq=case['min_mq'],
                                                      max_fragment_size=case['maxfrag'], key_tags=case['key_tags'], dedup=case['dedup'], **kw))
                     got = bc.obtain_counts(cmds, reference=None, live_update=False, threads=case['threads'])
             except Exception as e:
@@ -187,10 +197,12 @@ def eval_obtain(case):
         if not out.violations and len({repr(sorted(v.items(), key=repr)) for v in results.values()}) > 1:
             out.bad('obtain:partitions-disagree', 'tables differ between bins_per_job values')
     finally:
-        for p in (path, path + '.bai'):
+        for p in (path, path + '.bai', path2, path2 + '.bai'):
             if os.path.exists(p):
                 os.remove(p)
     out.nontrivial = multi_jobs and boundary and bool(exp)
+    if case.get('second_cells'):
+        out.label('two BAM files in one call')
     out.label('pool=%s' % case['pool'])
     if any(not r['flag'] & 2 for r in case['records']):
         out.label('has non-proper pairs')
